@@ -1,6 +1,7 @@
 """Code related to formatting"""
 
 import ast
+import re
 import textwrap
 
 import black
@@ -72,6 +73,7 @@ def _inspect_indentsize(line: str) -> int:
 
 def indentation_level(source: str) -> int:
     """Return the indentation level of source code."""
-    return min(
-        (_inspect_indentsize(line) for line in source.splitlines() if line.strip()), default=0
-    )
+    # Only \n, \r\n and \r end a line of source code (see core.split_lines). str.splitlines() also
+    # splits at form feeds, U+2028 and more, for example in the middle of a string literal.
+    lines = re.split(r"\r\n|\r|\n", source)
+    return min((_inspect_indentsize(line) for line in lines if line.strip()), default=0)
